@@ -175,6 +175,10 @@ func (e *Engine) generate(keys []string, prop string, kinds string, dir string, 
 			if o.Reach == "" {
 				continue
 			}
+			if o.Clause != nil && o.Clause.Unproved {
+				seenPost[o.Kind] = true
+				continue
+			}
 			if strings.HasPrefix(o.Kind, "post.") {
 				seenPost[o.Kind] = true
 			}
@@ -196,6 +200,9 @@ func (e *Engine) generate(keys []string, prop string, kinds string, dir string, 
 			}
 		}
 		for i, en := range con.Ensures {
+			if en.Unproved {
+				g.notes[con.Key] = append(g.notes[con.Key], "UNPROVED clause (written, not discharged, assumed by callers): ensures ["+en.Name+"] "+en.Text)
+			}
 			if !en.forProp(prop) {
 				continue
 			}
